@@ -43,7 +43,7 @@ prop('C05', ground=['astpass:c17_forwarding'], bounded=['validation_d', 'histori
 prop('C18', ground=['astpass:c17_forwarding'], bounded=['validation_d'],
      explanation='no-op profile lemma on generated instances (bounded); reference threading contracts to follow')
 
-prop('C08', ground=['astpass:c19_ownership', 'astpass:c17_forwarding'], bounded=['names'],
+prop('C08', ground=['tables:twf_groups', 'astpass:c19_ownership', 'astpass:c17_forwarding'], bounded=['names'],
      explanation='group finding on generated conforming instances (bounded); the recursive search is under contract')
 prop('C16', bounded=['mllp_d'],
      explanation='framing contract of to_mllp, routing contract of _route_message; the real server on loopback for every '
